@@ -93,7 +93,13 @@ fn check_overlay(rt: &tokio::runtime::Runtime, out: &mut Out, w: &World, k: usiz
 					}
 				}
 				Ok(Ok(None)) => {}
-				_ => broken = true,
+				// a source that fails AFTER an earlier source delivered the tile does not matter;
+				// when the first candidate itself fails the statement says nothing
+				_ => {
+					if want.is_none() {
+						broken = true;
+					}
+				}
 			}
 		}
 		if broken {
@@ -307,6 +313,30 @@ pub fn run(args: &Args) {
 				out.count(&format!("empty_or_1byte_tile_in_source_position_{}", if j == 0 { "first" } else if j == k - 1 { "last" } else { "middle" }));
 			}
 		}
+		// a LATER source whose lookups fail exactly where an EARLIER source has the tile: lookup and stream must still
+		// deliver the earlier source's tile (every odd world)
+		let mut first_err_case: Option<(usize, Key)> = None;
+		if wi % 2 == 1 {
+			let j = 1 + rng.below(k as u64 - 1) as usize;
+			if conv_flags(&specs[j].kind).is_none() {
+				let mut covered: Vec<Key> = vec![];
+				for s0 in specs.iter().take(j) {
+					covered.extend(served_tiles(s0).keys().copied());
+				}
+				covered.sort();
+				covered.dedup();
+				let mut fail: Vec<Key> = covered.iter().filter(|_| rng.chance(1, 2)).copied().collect();
+				if fail.is_empty() && !covered.is_empty() {
+					fail.push(covered[0]);
+				}
+				specs[j].fail = fail;
+				out.count("faulty_later_source");
+				// one coordinate where the faulty source is the FIRST that could have the tile (outside the statement)
+				if let Some(c) = specs[j].tiles.keys().find(|c| !covered.contains(c)).copied() {
+					first_err_case = Some((j, c));
+				}
+			}
+		}
 		let w = World::build(&rt, &scratch, &specs);
 		out.count("world");
 		out.count(&format!("sources_{k}"));
@@ -365,15 +395,33 @@ pub fn run(args: &Args) {
 		if wi % 5 == 0 {
 			pipes.push("L0,O1".to_string());
 		}
-		for rpn in pipes {
-			run_in_world(&rt, &mut out, &mut id, &w, "C08", "P", &rpn, "");
-			run_in_world(&rt, &mut out, &mut id, &w, "C08", "G", &rpn, &coords_s);
+		for (pi, rpn) in pipes.iter().enumerate() {
+			run_in_world(&rt, &mut out, &mut id, &w, "C08", "P", rpn, "");
+			run_in_world(&rt, &mut out, &mut id, &w, "C08", "G", rpn, &coords_s);
+			// with a faulty later source, a filter BELOW an earlier source may take its tile away and make the faulty source the
+			// first candidate (lookup Err, stream falls through: outside the statement) – model line only there
+			let sop = if w.has_faults() && pi == 1 { "s" } else { "S" };
 			for (z, present) in levels.iter() {
 				let boxes = gen_boxes(&mut rng, *z, present, 1, args.n(12, 30));
-				run_in_world(&rt, &mut out, &mut id, &w, "C08", "S", &rpn, &boxes_arg(&boxes));
+				run_in_world(&rt, &mut out, &mut id, &w, "C08", sop, rpn, &boxes_arg(&boxes));
 			}
 		}
 		w.cleanup();
+		// the FIRST source that could have the tile errs: recorded as the code behaves today (lookup Err, the stream falls
+		// through to later sources / delivers nothing) – model lines without the oracle
+		if let Some((j, c)) = first_err_case {
+			let mut specs2 = specs.clone();
+			specs2[j].fail.push(c);
+			let w2 = World::build(&rt, &scratch, &specs2);
+			if w2.usable() {
+				out.count("first_candidate_errs_recorded");
+				run_in_world(&rt, &mut out, &mut id, &w2, "C08", "G", &plain, &format!("{},{},{}", c.1, c.2, c.0));
+				let max = ((1u64 << c.0) - 1) as u32;
+				let b = format!("{}:{},{},{},{}", c.0, c.1.saturating_sub(1), c.2.saturating_sub(1), (c.1 + 1).min(max), (c.2 + 1).min(max));
+				run_in_world(&rt, &mut out, &mut id, &w2, "C08", "s", &plain, &b);
+			}
+			w2.cleanup();
+		}
 		// mixed tile formats: the build must be an error
 		if wi % 6 == 0 {
 			let mut specs2 = specs.clone();
@@ -390,7 +438,7 @@ pub fn run(args: &Args) {
 			w2.cleanup();
 		}
 	}
-	out.notes.push("checklist: (1) 32x32 sub-box and 256-block borders: boxes sampled around tiles incl. multiples of 256 +-1; the systematic 31/32/33/63/64/65 widths at offsets 0/1/31 mod 32 run in C02 part C over overlays; (2) faulty leaves under an overlay are outside the statement (lookup Err, stream falls through) – see C02 notes; (3) payload classes via tsrc styles (duplicates, 999/1000/1001, two-layer, 500 KB repetitive); (4) filters below/above, overlay of overlays, overlay ending in from_debug; (5) a source overlaid with itself (same file, two readers), every 4th box streamed twice; (6) straggler sources (reverse completion order), concurrent streams on one operation; (8) levels up to 31 via gen_coords; (9) sources written by the independent versatiles encoder (vtx) and behind TilesConvertReader; (10) stream vs lookups, parameters vs delivered tiles, declared compression vs decodability, coverage union".to_string());
+	out.notes.push("checklist: (1) 32x32 sub-box and 256-block borders: boxes sampled around tiles incl. multiples of 256 +-1; the systematic 31/32/33/63/64/65 widths at offsets 0/1/31 mod 32 run in C02 part C over overlays; (2) a LATER source that errs where an earlier source has the tile must not matter (FaultySource at non-first positions, fail sets inside what earlier sources cover: lookup and stream deliver the earlier tile); when the FIRST source that could have the tile errs the statement says nothing – recorded as the code behaves today (lookup Err, stream falls through) as model lines without the oracle; from_vectortiles_merged is left out (every source contributes); (3) payload classes via tsrc styles (duplicates, 999/1000/1001, two-layer, 500 KB repetitive); (4) filters below/above, overlay of overlays, overlay ending in from_debug; (5) a source overlaid with itself (same file, two readers), every 4th box streamed twice; (6) straggler sources (reverse completion order), concurrent streams on one operation; (8) levels up to 31 via gen_coords; (9) sources written by the independent versatiles encoder (vtx) and behind TilesConvertReader; (10) stream vs lookups, parameters vs delivered tiles, declared compression vs decodability, coverage union".to_string());
 	let _ = std::fs::remove_dir_all(&scratch);
 	out.finish();
 }
